@@ -295,7 +295,7 @@ let penv_ (rels : sexp) (strs_ : sexp) (extras : sexp) : Sem508.penv =
     Sem508.pe_extras = strs extras }
 
 (* ---- dispatch ---- *)
-let run (cmd : sexp) : sexp =
+let rec run (cmd : sexp) : sexp =
   match cmd with
   | L [A "name"; s] ->
       let s = str s in
@@ -382,7 +382,8 @@ let run (cmd : sexp) : sexp =
       with Miss m -> L [A "oracle-miss"; m])
   | L [A "tlextra"; a] -> (match TopExtra.top_level_extra (tree a) with Some e -> L [A "some"; smexpr e] | None -> A "none")
   | L [A "dnf"; a] -> L (Stdlib.List.map (fun cl -> L (Stdlib.List.map smexpr cl)) (DnfModel.to_dnf (tree a)))
-  | L [A "runi"; pv; pfv; L steps] ->
+  | L [A "runi"; pv; pfv; L steps] -> run (L [A "runi"; pv; pfv; L steps; L []])
+  | L [A "runi"; pv; pfv; L steps; L envs] ->
       (* a whole program with the crate's own recursions on ids: per step the raw id, the arena length, the cache length *)
       let rec nat_of_int i = if i <= 0 then Datatypes.O else Datatypes.S (nat_of_int (i - 1)) in
       let rec int_of_nat = function Datatypes.O -> 0 | Datatypes.S m -> 1 + int_of_nat m in
@@ -406,7 +407,16 @@ let run (cmd : sexp) : sexp =
         let last = Stdlib.List.nth regs (Stdlib.List.length regs - 1) in
         L [A (string_of_int (raw last)); A (string_of_int (Stdlib.List.length (!st).InternI.si_arena)); A (string_of_int (Stdlib.List.length (!st).InternI.si_cache));
            stree (Store.unfold (!st).InternI.si_arena last)]) steps in
-      L (A "ok" :: out)
+      (* evaluation on ids (EvalModel.m_eval_i / m_eval_extras_i: the crate's walk over kind()) of every register in the final store, per environment *)
+      let a = (!st).InternI.si_arena in
+      let fuel = EvalModel.eval_fuel a in
+      let ob = function Some true -> A "T" | Some false -> A "F" | None -> A "stuck" in
+      let evals = Stdlib.List.map (function
+        | L [rels; ss; ex] ->
+            let e = penv_ rels ss ex in
+            L (Stdlib.List.map (fun x -> L [ob (EvalModel.m_eval_i fuel a (Sem508.env_of_penv e) e.Sem508.pe_extras x); ob (EvalModel.m_eval_extras_i fuel a e.Sem508.pe_extras x)]) (!st).InternI.si_regs)
+        | _ -> failwith "driver: environment expected") envs in
+      L (A "ok" :: out @ (if envs = [] then [] else [L (A "evals" :: evals)]))
   | L [A "sem508"; pv; pfv; rels; ss; ex; a] ->
       let e = penv_ rels ss ex in
       let t = Sem508.compile (num pv) (num pfv) (mast a) in
